@@ -68,3 +68,39 @@ Example C39_contained_nonvacuous :
   (* "../../etc/passwd" *)
   normalize root [46;46;47;46;46;47;101;116;99;47;112;97;115;115;119;100]%N = root ++ [invalid_seg].
 Proof. vm_compute. repeat split. Qed.
+
+(* Conditional requests (ETag / If-None-Match), for every hash function standing for hex(sha256):
+   - a 304 is sent only without a Range header, carries the tag of the content served now, and only if a
+     comma-separated piece of the presented If-None-Match, trimmed, equals that tag;
+   - a 200 carries the tag of its own body and the body is the file;
+   - with a Range header no validator is consulted and the answer is the one of C39_range_exact (never 200). *)
+Theorem C39_conditional :
+  forall (hash : list N -> str) (cached : bool) (h inm : option str) (file : list N),
+    zlen file <= max_int64 ->
+    match handle_cond hash true cached h inm file with
+    | NotModified t => h = None /\ t = etag hash file /\
+                       exists m piece, inm = Some m /\ m <> [] /\ In piece (split_char 44 m) /\ trim_space piece = t
+    | FullTag t body => h = None /\ t = etag hash file /\ body = file /\ inm_match t inm = false
+    | Plain o => h <> None /\ o = handle true cached h file /\ (forall b, o <> Full b) /\ o <> Panic
+    end.
+Proof. exact handle_cond_spec. Qed.
+
+(* With a collision-free hash (idealised SHA-256): if every validator the client presents is the tag of a
+   copy it holds, a 304 is sent only when one of those copies IS the content served now. *)
+Theorem C39_304_current :
+  forall (hash : list N -> str) (cached : bool) (h : option str) (m : str) (file : list N) (olds : list (list N)),
+    (forall a b, hash a = hash b -> a = b) -> zlen file <= max_int64 ->
+    (forall piece, In piece (split_char 44 m) -> exists old, In old olds /\ trim_space piece = etag hash old) ->
+    (exists t, handle_cond hash true cached h (Some m) file = NotModified t) -> In file olds.
+Proof. exact not_modified_current. Qed.
+
+Example C39_conditional_nonvacuous :
+  let hash := fun d : list N => d in      (* an injective stand-in *)
+  let tag := etag hash ten in
+  (* If-None-Match: W/"x", <tag> with blanks -> 304; another file's tag -> 200 with the body; Range ignores it *)
+  handle_cond hash true false None (Some ([87;47;34;120;34;44;32]%N ++ tag ++ [32]%N)) ten = NotModified tag /\
+  handle_cond hash true false None (Some (etag hash [49]%N)) ten = FullTag tag ten /\
+  handle_cond hash true false None (Some []) ten = FullTag tag ten /\
+  handle_cond hash true false (Some [98;121;116;101;115;61;50;45;53]%N) (Some tag) ten = Plain (Partial 2 5 10 [50;51;52;53]%N) /\
+  (forall a b : list N, hash a = hash b -> a = b).
+Proof. vm_compute. repeat split. auto. Qed.
